@@ -2,6 +2,7 @@ package checks
 
 import (
 	"context"
+	"errors"
 	"fmt"
 	"io"
 	"net/http"
@@ -14,6 +15,7 @@ import (
 	"verif.local/harness/ev"
 	"verif.local/harness/gen"
 	"verif.local/harness/svc"
+	"verif.local/harness/wire"
 )
 
 func init() { register("C01", "exploration", c01) }
@@ -261,6 +263,9 @@ func c01(run *ev.Run) int {
 	}
 	if !run.Replaying() || strings.Contains(run.ReplayKey(), "late-eof") {
 		c01LateRequestEOF(run)
+	}
+	if !run.Replaying() || strings.Contains(run.ReplayKey(), "late-close") {
+		c01LateClose(run)
 	}
 	if !run.Replaying() || strings.Contains(run.ReplayKey(), "jitter") {
 		c01Jitter(run)
@@ -598,4 +603,78 @@ func c01Jitter(run *ev.Run) {
 			})
 		}
 	})
+}
+
+// c01LateClose is the mirror image of c01LateRequestEOF: the handler answers
+// and returns while the client's request side is still open, the HTTP/2 stream
+// ends a while after the handler's last byte, and the client closes its request
+// side only after it has received everything. Nothing is faulty: every reply
+// arrives, the stream ends cleanly, and closing either side reports no error.
+func c01LateClose(run *ev.Run) {
+	reg := svc.NewRegistry()
+	hs := svc.Handlers(reg)
+	mux := svc.Mux(hs)
+	front := http.HandlerFunc(func(w http.ResponseWriter, req *http.Request) {
+		mux.ServeHTTP(w, req)
+		time.Sleep(90 * time.Millisecond) // END_STREAM comes after the in-body terminator
+	})
+	srv := svc.NewServerWith(reg, hs, front)
+	defer srv.Close()
+	for _, p := range svc.Protocols {
+		for rep := 0; rep < 4; rep++ {
+			key := fmt.Sprintf("c01/late-close/%s/rep=%d", p, rep)
+			if !run.Want(key) {
+				continue
+			}
+			cs := srv.Clients(true, svc.ProtoOpts(p, "proto")...)
+			replies := []*gen.Msg{{Id: 31, Note: "x"}, gen.Zero(), {Id: 33, Note: "z"}}
+			prog := &svc.Program{Steps: []svc.Step{{Op: "recv"}}}
+			for _, m := range replies {
+				prog.Steps = append(prog.Steps, svc.Step{Op: "send", Msg: m})
+			}
+			call := srv.Reg.New("c01lc", prog)
+			type res struct {
+				got                           []*gen.Msg
+				sendErr, endErr, crErr, cpErr error
+			}
+			var r res
+			ok, dump := watchdog(60*time.Second, func() {
+				st := cs.C[svc.Bidi].CallBidiStream(context.Background())
+				st.RequestHeader().Set(wire.CallHeader, call.ID)
+				r.sendErr = st.Send(&gen.Msg{Id: 1})
+				for {
+					m, err := st.Receive()
+					if err != nil {
+						r.endErr = err
+						break
+					}
+					r.got = append(r.got, proto.Clone(m).(*gen.Msg))
+				}
+				r.crErr = st.CloseRequest()
+				r.cpErr = st.CloseResponse()
+			})
+			srv.Reg.Drop(call)
+			cs.Tap.Forget(call.ID)
+			run.Count("calls", 1)
+			run.Count("schedule.late_close.calls", 1)
+			run.Eval(fmt.Sprintf("late-close|%s", p))
+			if !ok {
+				run.Violation(key+"/hang", "fault-free call did not return", trunc(dump, 20000))
+				continue
+			}
+			detail := map[string]any{"protocol": p, "send_err": errStr(r.sendErr), "receive_end": errStr(r.endErr), "close_request_err": errStr(r.crErr), "close_response_err": errStr(r.cpErr), "received": gen.DescribeSeq(r.got)}
+			if same, why := gen.SameSeq(r.got, replies); !same {
+				run.Violation(key+"/sequence", "client received a different sequence than the handler sent: "+why, detail)
+				continue
+			}
+			if r.sendErr != nil || !errors.Is(r.endErr, io.EOF) {
+				run.Violation(key+"/end", "the stream of a fault-free call did not end cleanly: "+errStr(r.endErr), detail)
+				continue
+			}
+			if r.cpErr != nil || (r.crErr != nil && !errors.Is(r.crErr, io.EOF)) {
+				run.Violation(key+"/close", fmt.Sprintf("closing a completely received, fault-free call failed: CloseRequest %v, CloseResponse %v", r.crErr, r.cpErr), detail)
+			}
+		}
+	}
+	serverPanicCheck(run, srv, "c01/late-close")
 }
